@@ -130,8 +130,9 @@ def _sort_key(key):
 
 class SimScheduler:
     def __init__(self, mode="shared", policy="random", n_workers=2, stall_p=0.3,
-                 choices=None, max_events=200000, fail_after=None):
+                 choices=None, max_events=200000, fail_after=None, fail_mid=False):
         self.fail_after = fail_after
+        self.fail_mid = fail_mid  # threads mode: the failure strikes a task that is under way
         if mode not in ALL_MODES:
             raise HarnessError(f"unknown mode {mode}")
         if policy not in POLICIES:
@@ -367,7 +368,18 @@ class SimScheduler:
                     quantum = -(1 + self.choices.pick(3))
                 elif quantum == "O":  # until just before the k-th next store instruction
                     quantum = -10 - (1 + self.choices.pick(16))
-            if kind == "start" and self.fail_after is not None \
+            if kind == "resume" and self.fail_mid and self.fail_after is not None \
+                    and failure is None and self.stats["tasks"] >= self.fail_after \
+                    and not what.kill and what.preempted > 0:
+                # the task dies where it was pre-empted (an error / interrupt inside the task)
+                what.kill = True
+                self.stats["injected_task_failures"] += 1
+                self.stats["injected_mid_task_failures"] = \
+                    self.stats.get("injected_mid_task_failures", 0) + 1
+                self.events.append((self.seq, self._depth, "KILL:" + str(canon_key(what.key)),
+                                    _key_index(what.key), 0, ndeps[what.key]))
+                self.seq += 1
+            if kind == "start" and self.fail_after is not None and not self.fail_mid \
                     and self.stats["tasks"] >= self.fail_after:
                 self.stats["injected_task_failures"] += 1
                 self.events.append((self.seq, self._depth, "FAIL:" + str(canon_key(what)),
@@ -526,6 +538,7 @@ class _TaskThread:
         self.value = None
         self.quantum = 0
         self.preempted = 0
+        self.kill = False
         self.last = None  # (code, line) of the line event seen last in this thread
         self.thread = threading.Thread(target=self._body, daemon=True)
         self.thread.start()
@@ -549,6 +562,9 @@ class _TaskThread:
         self.sim._back.set()
         self.go.wait()
         self.go.clear()
+        if self.kill:
+            self.kill = None  # (once)
+            raise InjectedTaskFailure("inside " + str(canon_key(self.key)))
 
     def on_instruction(self, code, offset):
         if self.quantum <= -11 and _op_at(code, offset) in _STORE_OPS:
@@ -617,7 +633,8 @@ def make_sim(sched, replay=None):
                         policy=sched.get("policy", "random"),
                         n_workers=sched.get("workers", 2),
                         stall_p=sched.get("stall_p", 0.3),
-                        choices=ch, fail_after=sched.get("fail_after"))
+                        choices=ch, fail_after=sched.get("fail_after"),
+                        fail_mid=bool(sched.get("fail_mid")))
 
 
 def gen_sched(rng, modes=ALL_MODES):
